@@ -36,13 +36,13 @@ CHECKS.update({
     'C09': ('exhaustive boundary-grid enumeration of operator x operand types x operand pairs x usage position (value, recast, branch, loop condition, defeat argument, byte-array store index, dynamic array length) x word size vs harness arithmetic',
             'The listed domain (operators x boundary grid x positions x word sizes) is finite and enumerated completely on '
             'every run; random extra operands widen it in the thorough tier.', '3/C09'),
-    'C13': ('enumeration of all single bytes / byte pairs / char literals (escaped and raw spellings) + Hypothesis byte strings, raw Unicode text and constant arrays; static data-section and dynamic print/index/length oracles',
+    'C13': ('enumeration of all single bytes / byte pairs / char literals (escaped and raw spellings) + Hypothesis byte strings, raw Unicode text and constant arrays, the same bytes as string content / char immediates / const byte[] elements in one program in both render orders; static data-section and dynamic print/index/length oracles',
             'Single bytes and char literals exhaustively, pairs exhaustively in the thorough tier; longer strings and arrays '
             'sampled. The assembler acceptance and byte-exact round trip are cheap, exact oracles.', '3/C13'),
     'C14': ('Hypothesis constant-expression trees and array literals of constant expressions with de-constified twins; differential VM output vs run-time reference semantics',
             'Metamorphic/differential search over constant expressions and their run-time twins (any subset of leaves '
             'de-constified), oracle = reference interpreter with run-time semantics.', '3/C14'),
-    'C15': ('Hypothesis program generator; differential checked vs unchecked build on the VM for fault-free runs',
+    'C15': ('Hypothesis program generator + enumerated operator grid (every arithmetic/comparison/compound operator between run-time operands and boundary literals of each word size); differential checked vs unchecked build on the VM for fault-free runs',
             'Differential between the two builds of the same program on the same VM; no model needed.', '3/C15'),
     'C18': ('metamorphic: byte-identical builds across processes/hash seeds/interpreter optimisation levels, event streams equal across stack sizes, word sizes (when values fit) and lint',
             'Metamorphic relations over configurations on generated programs and the example corpus.', '3/C18'),
@@ -74,7 +74,7 @@ CHECKS.update({
     'C07': ('Hypothesis well-typed program generator + single-rule statement mutants; differential accept/reject vs independent typechecker; overload identity via output',
             'Differential against an independent implementation of the documented typing rules in both directions, on '
             'well-typed programs and on mutants placed at reachable sites.', '3/C07'),
-    'C08': ('Hypothesis program generator (arrays in nested scopes, every exit route) + ScopeHistory RuleBasedStateMachine (loop iterations leaving by scheduled routes, n/3n footprint twins); replay monitor on (fp, ap) at calls, loop instances and try/stop; entitlement monitor; differential at S_min',
+    'C08': ('Hypothesis program generator (arrays in nested scopes, every exit route) + ScopeHistory RuleBasedStateMachine (loop iterations leaving by scheduled routes, n/3n footprint twins); replay monitor on (fp, ap) at calls, loop instances and try/stop; entitlement monitor; differential at S_min and on the --unchecked build',
             'Generated-input search with run-time invariants sampled on the committed path at the labels hidc emits, plus '
             'differential output at the minimal stack size.', '3/C08'),
     'C16': ('Hypothesis control-flow body generator; fall-through monitor + tell-tale + differential; reference witness for "completes without returning"; structural acceptance rule',
